@@ -127,7 +127,9 @@ func (c *TreeCacheClientImpl) GetBranchesHighesPrecedence(ctx context.Context, p
 
 	// TODO: Improve this, since it is probably an expensive operation
 	for key, entries := range c.intendedStoreIndex {
-		if strings.HasPrefix(key, pathKey) {
+		// the branch is the path itself and everything below it, not the
+		// siblings that just share the beginning of the name (alpha, alpha-b)
+		if key == pathKey || strings.HasPrefix(key, pathKey+KeysIndexSep) {
 			if prio := entries.GetLowestPriorityValue(filters); prio < result {
 				result = prio
 			}
